@@ -1221,6 +1221,44 @@ pub fn scale(out_dir: &str, thorough: bool, seed: u64) -> i32 {
             }
         }
     }
+    // ---- every way a single char gets into / out of a string, for every boundary code point and a few thousand random ones
+    {
+        let mut cps: Vec<u32> = vec![0, 1, 0x7e, 0x7f, 0x80, 0xbf, 0xc0, 0xff, 0x100, 0x1ff, 0x200, 0x3ff, 0x400, 0x7ff, 0x800, 0xfff, 0x1000, 0xd7ff, 0xe000, 0xfeff, 0xfffd, 0xfffe, 0xffff,
+            0x10000, 0x10001, 0x1ffff, 0x20000, 0x3ffff, 0x40000, 0xfffff, 0x100000, 0x10fffe, 0x10ffff, 0x1D11E];
+        for _ in 0..(if thorough { 20000 } else { 3000 }) {
+            cps.push((r.next() % 0x110000) as u32);
+        }
+        for base in ["", "ab", "0123456789abcde", "0123456789abcdef", "0123456789abcdefg"] {
+            for &cp in &cps {
+                let Some(c) = char::from_u32(cp) else { continue };
+                let mut s = LeanString::from(base);
+                let mut t = String::from(base);
+                s.push(c);
+                t.push(c);
+                s.insert(base.len().min(1), c);
+                t.insert(base.len().min(1), c);
+                s.extend([c]);
+                t.extend([c]);
+                s.extend([&c]);
+                t.extend([&c]);
+                let mut ok = s.as_bytes() == t.as_bytes();
+                let col: LeanString = [c, c].into_iter().collect();
+                ok &= col.as_str() == [c, c].into_iter().collect::<String>();
+                ok &= LeanString::from(c).as_str() == c.to_string() && (LeanString::new() + c.encode_utf8(&mut [0; 4])).as_str() == c.to_string();
+                ok &= s.pop() == t.pop() && s.remove(base.len().min(1)) == t.remove(base.len().min(1));
+                let mut kept = 0;
+                s.retain(|x| {
+                    kept += (x == c) as usize;
+                    x != c
+                });
+                t.retain(|x| x != c);
+                ok &= s.as_bytes() == t.as_bytes() && kept >= 1;
+                if !ok || cp % 977 == 0 {
+                    recs.push(json!({"k":"bigop","op":format!("char U+{cp:04X} on {} bytes", base.len()),"teq":ok,"len2":s.len(),"explen":t.len(),"cap2":s.capacity(),"resok":ok,"fits":false,"dA":0,"dR":0,"sameptr":true,"others":true}));
+                }
+            }
+        }
+    }
     // ---- long static texts (C10 at scale): borrowed, cloned, shortened without a copy; the first write moves the handle
     for &len in &[17usize, 100, 4095, 4096, 4097, 100_000, 1 << 20] {
         let pat = "st\u{e9}";
